@@ -912,6 +912,7 @@ pub fn run_mutex(prog: &Value, strat: Strat) -> RunResult {
                     for op in &ops {
                         let name = gs(op, "op");
                         let ok = match name {
+                            "spin_cond" => true,
                             "lock" | "try_lock" => !held,
                             "unlock" | "write" | "read" => held,
                             _ => false,
@@ -921,7 +922,19 @@ pub fn run_mutex(prog: &Value, strat: Strat) -> RunResult {
                         }
                         oid += 1;
                         sched::point(sched::H_BEGIN, 0, oid as u64, 0);
-                        sched::annotate(format!("\"o\":{},\"op\":\"{}\"", oid, name));
+                        sched::annotate(format!("\"o\":{},\"op\":\"{}\",\"K\":{}", oid, name, gu(op, "K")));
+                        if name == "spin_cond" {
+                            // the lock's back-off loop driven by a scripted condition: false K times, then true
+                            let k = gu(op, "K");
+                            let calls = std::cell::Cell::new(0u64);
+                            kanal::verif::spin_cond(|| {
+                                calls.set(calls.get() + 1);
+                                calls.get() > k
+                            });
+                            sched::record(sched::H_END, 0, oid as u64, 0,
+                                          Some(format!("\"o\":{},\"r\":\"Ok\",\"calls\":{},\"K\":{}", oid, calls.get(), k)));
+                            continue;
+                        }
                         let r = match name {
                             "lock" => {
                                 sh.m.lock();
